@@ -102,6 +102,9 @@ func runC13(c writeCase) (bool, []string, error) {
 		if err := agree(c.Schema, d, c.Target, false, back.Elem(), dirRead, fmt.Sprintf("value[%d]", i)); err != nil {
 			return nt, labels, fmt.Errorf("read-back differs from what was written: %w", err)
 		}
+		// done with the value: its bank goes back to the pool, to be handed out for
+		// a later decode (of another size, of another type)
+		rb.ExtractResourceBank().Close()
 	}
 	return nt, labels, nil
 }
